@@ -42,6 +42,56 @@ TRUSTED_FRESH = {
 }
 
 
+# ---- constructor bodies (__init__): additional trusted knowledge -------------
+# builtins / helpers that only read their arguments (result: new, or part of an argument)
+CTOR_READERS = {'float', 'max', 'min', 'abs', 'round', 'range', 'set', 'dict', 'frozenset', 'print', 'iter', 'next',
+                'callable', 'issubclass', 'id', 'hash', 'ord', 'chr', 'divmod', 'pow', 'map', 'filter', 'bytes',
+                'bytearray', 'is_attribute_in_iod', 'tag_for_keyword', 'keyword_for_tag', 'Decimal', 'DA', 'TM', 'DT',
+                'DSfloat', 'IS', 'UID', 'PersonName', 'does_iod_have_pixel_data', 'is_tiled_image'}
+# read-only methods of str / Enum / datetime / numpy values
+CTOR_PURE_METHODS = {'astype', 'flatten', 'tolist', 'reshape', 'copy', 'ravel', 'max', 'min', 'any', 'all', 'tobytes',
+                     'item', 'squeeze', 'sum', 'strip', 'upper', 'lower', 'startswith', 'endswith', 'split', 'replace',
+                     'isoformat', 'strftime', 'date', 'time', 'transpose', 'round', 'encode', 'decode', 'is_integer',
+                     'count', 'isdigit', 'total_seconds', 'title', 'join', 'format', 'mean', 'argmax', 'nonzero',
+                     'rstrip', 'lstrip', 'zfill', 'newbyteorder', 'most_common', 'isalnum', 'isupper', 'dot', 'view', 'elements', 'to_json_dict'}
+# modules whose functions read their arguments (except the writers below and any call with out=)
+CTOR_MODULES = {'np', 'numpy', 'datetime', 'warnings', 'logging', 'logger', 're', 'math', 'itertools', 'os', 'struct'}
+# classmethods that build a value from their argument (or return the argument itself)
+CTOR_CLASS_READERS = {'from_code'}
+# functions that write into the objects they are given (every tracked argument counts as written)
+CTOR_ARG_WRITERS = {'write_file_meta_info'}
+CTOR_MODULE_WRITERS = {'put', 'place', 'copyto', 'putmask', 'fill_diagonal', 'shuffle', 'put_along_axis', 'setflags',
+                       'resize', 'sort', 'partition', 'byteswap'}
+
+
+# constructors whose body is inside the fragment AND accepted by ok_ctor on the reference tree: each is an
+# obligation of every run (it must stay translatable and accepted); the other __init__ bodies are not covered
+EXPECTED_CTORS = [
+    'AlgorithmIdentification', 'AlgorithmIdentificationSequence', 'BlendingDisplay', 'BlendingDisplayInput',
+    'CIELabColor', 'CodeContentItem', 'CodedConcept', 'CodingSchemeIdentificationItem',
+    'CodingSchemeResourceItem', 'CompositeContentItem', 'Comprehensive3DSR', 'ContainerContentItem',
+    'ContentCreatorIdentificationCodeSequence', 'ContentItem', 'CoordinatesForMeasurement',
+    'CoordinatesForMeasurement3D', 'DateContentItem', 'DateTimeContentItem',
+    'DeviceObserverIdentifyingAttributes', 'FindingSite', 'GraphicGroup', 'GraphicLayer', 'GraphicObject',
+    'Image', 'ImageContentItem', 'ImageFileReader', 'ImageLibraryEntry', 'ImageRegion', 'ImageRegion3D',
+    'IssuerOfIdentifier', 'KeyObjectSelection', 'LUT', 'LanguageOfContentItemAndDescendants',
+    'LongitudinalTemporalOffsetFromEvent', 'Measurement', 'MeasurementProperties',
+    'MeasurementStatisticalProperties', 'ModalityLUT', 'NormalRangeProperties', 'ObservationContext',
+    'ObserverContext', 'PaletteColorLUT', 'PaletteColorLUTTransformation',
+    'PersonObserverIdentifyingAttributes', 'PixelMeasuresSequence', 'PlaneOrientationSequence',
+    'PlanePositionSequence', 'PnameContentItem', 'PresentationLUT', 'PresentationLUTTransformation',
+    'QualitativeEvaluation', 'RealWorldValueMap', 'RealWorldValueMapping', 'ReferencedSegment',
+    'ReferencedSegmentationFrame', 'ScoordContentItem', 'SegmentDescription', 'SoftcopyVOILUTTransformation',
+    'SourceImageForMeasurement', 'SourceImageForMeasurementGroup', 'SourceImageForRegion',
+    'SourceImageForSegmentation', 'SourceSeriesForSegmentation', 'SpecimenCollection', 'SpecimenDescription',
+    'SpecimenPreparationStep', 'SpecimenProcessing', 'SpecimenSampling', 'SpecimenStaining', 'SubjectContext',
+    'SubjectContextDevice', 'SubjectContextFetus', 'SubjectContextSpecimen', 'TcoordContentItem', 'Template',
+    'TextContentItem', 'TextObject', 'TimeContentItem', 'TimePointContext', 'TrackingIdentifier',
+    'UIDRefContentItem', 'VOILUT', 'VolumeGeometry', 'VolumeSurface', 'VolumeToVolumeTransformer',
+    '_MeasurementsAndQualitativeEvaluations', '_ReferencedSOPInstance', '_SQLTableDefinition',
+]
+
+
 class Untranslatable(Exception):
     pass
 
@@ -172,6 +222,21 @@ class Tr:
     def vs(self, rs):
         return [r[1] for r in rs if r[0] == 'var']
 
+    ctor = False
+
+    def derived(self, out, vs):
+        """Result of a read-only call over tracked objects: a new object that may
+        hold references to them, or (list(x), x.get(k), numpy functions returning views
+        or their very argument) some object reachable from one of them."""
+        t = self.tmp()
+        alts = [[('New', t, list(vs))]] + [[('PathInto', t, v)] for v in vs]
+        node = alts[-1]
+        for a in reversed(alts[:-1]):
+            node = [('Choice', a, node)]
+        out.extend(node)
+        self.kind[t] = 'new' if len(alts) == 1 else 'derived'
+        return ('var', t)
+
     # ---- expressions -------------------------------------------------------
     def ev(self, out, e):
         """-> ('pure',) | ('var', id) | ('classes', [names])"""
@@ -247,7 +312,7 @@ class Tr:
             self.emit(out, ('New', t, self.vs(rs)))
             self.kind[t] = 'new'
             return ('var', t)
-        if isinstance(e, (ast.ListComp, ast.GeneratorExp)):
+        if isinstance(e, (ast.ListComp, ast.GeneratorExp)) or (self.ctor and isinstance(e, ast.SetComp)):
             acc = self.tmp()
             self.emit(out, ('New', acc, []))
             self.kind[acc] = 'new'
@@ -255,6 +320,31 @@ class Tr:
             return ('var', acc)
         if isinstance(e, ast.Call):
             return self.call(out, e)
+        if isinstance(e, ast.Slice):
+            for x in (e.lower, e.upper, e.step):
+                if x is not None:
+                    self.ev(out, x)
+            return ('pure',)
+        if isinstance(e, ast.IfExp) and self.ctor:
+            self.in_test += 1
+            try:
+                self.ev(out, e.test)
+            finally:
+                self.in_test -= 1
+            a, b = [], []
+            ra, rb = self.ev(a, e.body), self.ev(b, e.orelse)
+            if ra[0] == 'classes' or rb[0] == 'classes':
+                raise Untranslatable('class-valued conditional expression')
+            if ra[0] != 'var' and rb[0] != 'var':
+                out.append(('Choice', a, b))
+                return ('pure',)
+            t = self.tmp()
+            a.append(('Alias', t, ra[1]) if ra[0] == 'var' else ('New', t, []))
+            b.append(('Alias', t, rb[1]) if rb[0] == 'var' else ('New', t, []))
+            self.pathalias = {}
+            out.append(('Choice', a, b))
+            self.kind[t] = 'derived'
+            return ('var', t)
         raise Untranslatable(f'expression {type(e).__name__}: {ast.unparse(e)[:60]}')
 
     def comprehension(self, out, gens, elt, acc):
@@ -407,10 +497,7 @@ class Tr:
                 rs = [self.ev(out, a) for a in allargs]
                 self.emit(out, ('Check',))
                 if n in READERS_DERIVED and self.vs(rs):
-                    t = self.tmp()
-                    self.emit(out, ('New', t, self.vs(rs)))
-                    self.kind[t] = 'new'
-                    return ('var', t)
+                    return self.derived(out, self.vs(rs))
                 return ('pure',)
             if n == 'cls' or (n[:1].isupper() and n not in self.vars):
                 # constructor: allocates, keeps references to its arguments
@@ -424,10 +511,36 @@ class Tr:
                 self.emit(out, ('New', t, self.vs(rs)))
                 self.kind[t] = 'new'
                 return ('var', t)
+            if self.ctor and n in CTOR_ARG_WRITERS:
+                rs = [self.ev(out, a) for a in allargs]
+                for v in self.vs(rs):
+                    self.emit(out, ('SetAttr', v, []))
+                self.emit(out, ('Check',))
+                return ('pure',)
+            if self.ctor and (n in CTOR_READERS or n.startswith('_check_') or n.startswith('check_')):
+                rs = [self.ev(out, a.value if isinstance(a, ast.Starred) else a) for a in allargs]
+                self.emit(out, ('Check',))
+                if self.vs(rs) and not (n.startswith('_check_') or n.startswith('check_')):
+                    return self.derived(out, self.vs(rs))
+                return ('pure',)
             raise Untranslatable(f'call of unknown function {n}')
         if isinstance(fn, ast.Attribute):
             m = fn.attr
             recv = fn.value
+            if self.ctor and m == '__init__' and isinstance(recv, ast.Call) and \
+                    isinstance(recv.func, ast.Name) and recv.func.id == 'super':
+                # the base-class constructor fills the object under construction and may keep
+                # references to what it is given (constructors do not modify their arguments)
+                rs = [self.ev(out, a.value if isinstance(a, ast.Starred) else a) for a in allargs]
+                self.emit(out, ('Check',))
+                self.emit(out, ('SetAttr', 0, self.vs(rs)))
+                return ('pure',)
+            if self.ctor and isinstance(recv, ast.Name) and recv.id in CTOR_MODULES and recv.id not in self.vars:
+                if m in CTOR_MODULE_WRITERS or any(k.arg == 'out' for k in e.keywords):
+                    raise Untranslatable(f'{recv.id}.{m} may write to its argument')
+                rs = [self.ev(out, a.value if isinstance(a, ast.Starred) else a) for a in allargs]
+                self.emit(out, ('Check',))
+                return self.derived(out, self.vs(rs)) if self.vs(rs) else ('pure',)
             if is_conv_name(m):
                 if isinstance(recv, ast.Call) and isinstance(recv.func, ast.Name) and recv.func.id == 'super' \
                         and not recv.args:
@@ -446,15 +559,16 @@ class Tr:
                 return self.conv_call(out, e, owners, m)
             r = self.ev(out, recv)
             rs = [self.ev(out, a) for a in allargs]
+            if self.ctor and r[0] == 'classes' and m in CTOR_CLASS_READERS:
+                self.emit(out, ('Check',))
+                return self.derived(out, self.vs(rs)) if self.vs(rs) else ('pure',)
             if r[0] == 'var':
-                if m in GROW_METHODS:
+                if m in GROW_METHODS or (self.ctor and m == 'add'):
                     self.emit(out, ('SetAttr', r[1], self.vs(rs)))
                     return ('pure',)
-                if m in PURE_METHODS:
-                    t = self.tmp()
-                    self.emit(out, ('New', t, [r[1]] + self.vs(rs)))
-                    self.kind[t] = 'new'
-                    return ('var', t)
+                if m in PURE_METHODS or (self.ctor and m in CTOR_PURE_METHODS):
+                    self.emit(out, ('Check',))
+                    return self.derived(out, [r[1]] + self.vs(rs))
                 if m in INPLACE_METHODS:
                     if self.vs(rs):
                         raise Untranslatable('object argument to in-place method')
@@ -631,6 +745,27 @@ class Tr:
                 raise Untranslatable('loop aliases do not stabilise')
             out.append(('Star', body))
             return
+        if isinstance(s, ast.AugAssign) and self.ctor:
+            r = self.ev(out, s.value)
+            t = s.target
+            if isinstance(t, ast.Name):
+                if t.id in self.vars:
+                    # in place for arrays and lists, a rebinding for numbers: the stronger reading
+                    self.emit(out, ('SetAttr', self.vars[t.id], self.vs([r])))
+                return
+            if isinstance(t, (ast.Attribute, ast.Subscript)):
+                self.store(out, t, r)
+                return
+            raise Untranslatable('augmented assignment target')
+        if isinstance(s, ast.With) and self.ctor:
+            for it in s.items:
+                r = self.ev(out, it.context_expr)
+                if it.optional_vars is not None:
+                    if not isinstance(it.optional_vars, ast.Name):
+                        raise Untranslatable('with target')
+                    self.assign_name(out, it.optional_vars.id, r)
+            out.extend(self.block(s.body))
+            return
         if isinstance(s, ast.Try):
             if s.orelse or s.finalbody:
                 raise Untranslatable('try-else/finally')
@@ -659,6 +794,82 @@ class Tr:
         self.ret = None
         self.body = self.block(body, tail=True)
         return self
+
+
+class TrInit(Tr):
+    """Translation of one constructor body: variable 0 = self (the object under
+    construction), every parameter a tracked variable of unknown ownership."""
+    ctor = True
+
+    def __init__(self, index, cls, f):
+        self.ix, self.cls, self.meth, self.f = index, cls, '__init__', f
+        self.qual = f'{cls}.__init__'
+        a = f.args
+        names = [x.arg for x in a.posonlyargs + a.args] + ([a.vararg.arg] if a.vararg else []) + \
+            [x.arg for x in a.kwonlyargs] + ([a.kwarg.arg] if a.kwarg else [])
+        if not names or names[0] != 'self' or f.decorator_list:
+            raise Untranslatable('unexpected constructor signature')
+        self.has_copy = False
+        self.argname = 'self'
+        self.params = set()
+        self.vars = {n: i for i, n in enumerate(names)}
+        self.names = {i: n for i, n in enumerate(names)}
+        self.n = len(names)
+        self.classvars = {}
+        self.kind = {}
+        self.pathalias = {}
+        self.in_test = 0
+        self.trusted_used = []
+        self.callees = set()
+
+    def run(self):
+        body = list(self.f.body)
+        if body and isinstance(body[0], ast.Expr) and isinstance(body[0].value, ast.Constant):
+            body = body[1:]
+        self.ret = 0
+        self.body = self.block(body)
+        return self
+
+
+def translate_ctors(repo, known_convs):
+    """-> (translated constructor bodies, {qualname: why not})"""
+    ix = Index(repo)
+    done, fails = [], {}
+    for cname, c in sorted(ix.classes.items(), key=lambda kv: (kv[1]['file'], kv[1]['node'].lineno)):
+        f = c['methods'].get('__init__')
+        if f is None:
+            continue
+        q = f'{cname}.__init__'
+        try:
+            if cname in ix.dup:
+                raise Untranslatable('class name defined twice')
+            t = TrInit(ix, cname, f).run()
+            missing = [x for x in sorted(t.callees) if x not in known_convs]
+            if missing:
+                raise Untranslatable('calls untranslated converter ' + ', '.join(missing))
+        except Untranslatable as ex:
+            fails[q] = f"{c['file']}:{f.lineno}: {ex}"
+            continue
+        done.append(dict(qual=q, file=c['file'], line=f.lineno, tr=t, body=t.body))
+    return done, fails
+
+
+def emit_ctors(ctors, fails):
+    L = ['', '(* ---- constructor bodies (__init__): ok_ctor = no write to any parameter ---- *)']
+    for c in ctors:
+        names = ', '.join(f'{v}={n}' for v, n in sorted(c['tr'].names.items()) if not n.startswith('t'))
+        L.append(f"(* {c['file']}:{c['line']}  {c['qual']}   vars: {names} *)")
+        L.append(f"Definition {ctor_ident(c['qual'])} : stmt := seqs [")
+        L.append(render_block(c['body'], 4) + '].')
+        L.append('')
+    L.append('Definition ctor_table : list (string * stmt) := [')
+    L.append(';\n'.join(f"  (\"{c['qual']}\", {ctor_ident(c['qual'])})" for c in ctors) + '].')
+    L.append('Eval vm_compute in (map (fun p => (fst p, ok_ctor conv_modes (snd p))) ctor_table).')
+    return '\n'.join(L) + '\n'
+
+
+def ctor_ident(q):
+    return 'ctor_' + ''.join(ch if ch.isalnum() else '_' for ch in q)
 
 
 # --------------------------------------------------------------------------
